@@ -1,5 +1,8 @@
 use conform::{areas, util};
 
+#[global_allocator]
+static A: conform::alloc::Counting = conform::alloc::Counting;
+
 fn main() {
     let args: Vec<String> = std::env::args().collect();
     if args.len() < 3 {
@@ -16,6 +19,7 @@ fn main() {
             match area {
                 "headermap" => areas::headermap::replay(&cases, &mut out),
                 "payload" => areas::payload::replay(&cases, &mut out),
+                "h1" => areas::h1::replay(&cases, &mut out),
                 _ => {
                     eprintln!("unknown area {area}");
                     std::process::exit(2);
